@@ -18,6 +18,8 @@
    (D36, D37); the last section refutes the statements for the code before. *)
 From Coq Require Import List ZArith Bool Arith Permutation.
 From NT Require Import Sx Rose Export ExportProofs.
+From NT Require MiscMermaid MiscMermaidProofs.   (* part MERMAIDDEF, imported at the end of this file *)
+From NT Require MiscWriters MiscWritersProofs.   (* part WRITERS, imported at the end of this file *)
 From NT Require Nav.
 From NT Require CaseC17.   (* the correspondence entry point is rebuilt with the obligations *)
 From NTGen Require Import Generated.
@@ -426,3 +428,97 @@ Proof. exact GluePreExport.desc_p_rows. Qed.
 Print Assumptions C17_edges_are_the_machines_rows.
 
 (* with C12_preorder_is_the_machines_rows (same row list) the edges are also in the serialisation order *)
+
+(* ==== PART MERMAIDDEF: to_mermaid_flowchart called without options (model theories/Forest/MiscMermaid.v,
+   correspondence Cases/CaseMiscMermaid.v, harness parts_misc.MERMAIDDEF): the default arguments of the signatures are
+   ONE options record of Export.v, lifted from the source. ==== *)
+Import MiscMermaid MiscMermaidProofs.
+
+(* without options the export never raises, and the chart is the markdown fence, the title block naming the start node,
+   the generator comment, "flowchart <direction>", the node / edge lines of the unique-nodes export with the start node, the closing fence *)
+Theorem C17_mermaid_default_chart : forall dir s,
+  exists N E,
+    default_chart dir s =
+      Some ([L_md_open; L_dashes; L_title ++ rname s; L_dashes; []; L_generator; []; L_flowchart ++ dir; []; L_nodes]
+            ++ N ++ [[]; L_edges] ++ E ++ [L_md_close]) /\
+    map Some N = map mer_node_text (mer_nodes true true s) /\
+    map Some E = map mer_edge_text (mer_edges true true s).
+Proof. exact default_chart_total. Qed.
+Print Assumptions C17_mermaid_default_chart.
+
+Theorem C17_mermaid_default_direction_line : forall dir s ls,
+  default_chart dir s = Some ls -> nth_error ls 7 = Some (L_flowchart ++ dir).
+Proof. exact default_chart_direction_line. Qed.
+Print Assumptions C17_mermaid_default_direction_line.
+
+(* tie to the source (gen_facts section MISCMERMAID): the `direction` default of all four signatures
+   (_node_to_mermaid_flowchart_iter, node_to_mermaid_flowchart, Node.to_mermaid_flowchart, Tree.to_mermaid_flowchart) is
+   mermaid.DEFAULT_DIRECTION, and the default tables of the Node and the Tree method decode to the model's record *)
+Theorem C17_mermaid_defaults_from_source :
+  GEN_MISCMERMAID_OK = true /\
+  Forall (fun d => d = MERMAID_DEFAULT_DIRECTION) MERMAID_DIRECTION_DEFAULTS /\ length MERMAID_DIRECTION_DEFAULTS = 4 /\
+  mopts_of_defaults MERMAID_NODE_DEFAULTS [97; 100; 100; 95; 115; 101; 108; 102]%Z = Some (default_mopts MERMAID_DEFAULT_DIRECTION) /\
+  mopts_of_defaults MERMAID_TREE_DEFAULTS [97; 100; 100; 95; 114; 111; 111; 116]%Z = Some (default_mopts MERMAID_DEFAULT_DIRECTION).
+Proof. vm_compute. repeat split; repeat constructor. Qed.
+Print Assumptions C17_mermaid_defaults_from_source.
+
+(* non-vacuity: a decoding that is not the identity – a table with unique_nodes=False gives a different record *)
+Example C17_mermaid_ex_decoding :
+  option_map mo_unique (mopts_of_defaults
+    (map (fun e => if text_eqb (fst e) k_unique then (fst e, [70; 97; 108; 115; 101]%Z) else e) MERMAID_NODE_DEFAULTS)
+    [97; 100; 100; 95; 115; 101; 108; 102]%Z) = Some false.
+Proof. vm_compute. reflexivity. Qed.
+
+(* ==== PART WRITERS: dot.tree_to_dotfile and mermaid.node_to_mermaid_flowchart as writers (model theories/Forest/MiscWriters.v,
+   correspondence Cases/CaseMiscWriters.v on streams and real files, harness parts_misc.WRITERS).  [wres]: [WStream t] the
+   caller's stream received t; [WFile other t] a file did (the path, or the path with the suffix replaced – then the
+   external converter, outside the model, is run); [WRefused] RuntimeError before anything is written; [WBroken ...  t]
+   a mapper raised and t had been written by then. ==== *)
+Import MiscWriters MiscWritersProofs.
+
+(* every line is followed by one newline, and the text determines the lines (no line of the exporters contains a newline) *)
+Theorem C17_writers_text_decodes : forall ls, Forall no_nl ls -> split_nl [] (lines_text ls) = ls.
+Proof. exact lines_text_decodes. Qed.
+Print Assumptions C17_writers_text_decodes.
+
+(* to_dotfile: the four combinations of target and format *)
+Theorem C17_writers_dotfile : forall doc,
+  dotfile_write doc TStream false = WStream (lines_text doc) /\
+  dotfile_write doc TStream true = WRefused /\
+  dotfile_write doc TPath false = WFile false (lines_text doc) /\
+  dotfile_write doc TPath true = WFile true (lines_text doc).
+Proof. exact dotfile_cases. Qed.
+Print Assumptions C17_writers_dotfile.
+
+(* the yields of the Mermaid generator, run to the end, are the chart of this file's theorems *)
+Theorem C17_writers_events_are_the_chart : forall o s, oseq (chart_events o s) = mer_chart o s.
+Proof. exact chart_events_chart. Qed.
+Print Assumptions C17_writers_events_are_the_chart.
+
+(* no mapper fails: the whole chart is written, to the stream or to the path *)
+Theorem C17_writers_mermaid_complete : forall o s ls, mer_chart o s = Some ls ->
+  mermaid_write o s TStream false = WStream (lines_text ls) /\ mermaid_write o s TPath false = WFile false (lines_text ls).
+Proof. exact mermaid_write_complete. Qed.
+Print Assumptions C17_writers_mermaid_complete.
+
+(* a mapper fails: the stream is left with exactly the lines before the first failing one (a truncated chart) *)
+Theorem C17_writers_mermaid_partial : forall o s, mer_chart o s = None ->
+  exists ls k, mermaid_write o s TStream false = WBroken TStream false (lines_text ls) /\
+               nth_error (chart_events o s) k = Some None /\ map Some ls = firstn k (chart_events o s).
+Proof. exact mermaid_write_broken. Qed.
+Print Assumptions C17_writers_mermaid_partial.
+
+(* format=: a stream is refused before anything is generated; a path receives the chart WITHOUT the markdown fence *)
+Theorem C17_writers_mermaid_format : forall o s,
+  mermaid_write o s TStream true = WRefused /\
+  mermaid_write o s TPath true = mermaid_write (no_markdown o) s TPath true /\
+  (forall ls, mer_chart (no_markdown o) s = Some ls -> mermaid_write o s TPath true = WFile true (lines_text ls)).
+Proof. exact mermaid_write_format. Qed.
+Print Assumptions C17_writers_mermaid_format.
+
+(* non-vacuity: a node template with an unknown field on a one-node tree – the header and the root line are in the stream, nothing after *)
+Example C17_writers_ex_partial :
+  mermaid_write (MO false [84; 68]%Z TitleOff [] true true (Some [123; 120; 125]%Z) None)
+                (T 0 (I 0 0 0 true [84]%Z (DInt 0) None []) [T 1 (I 1 1 1 true [97]%Z (DInt 1) None []) []]) TStream false =
+  WBroken TStream false (lines_text [[]; L_generator; []; L_flowchart ++ [84; 68]%Z; []; L_nodes; [48; 123; 123; 34; 84; 34; 125; 125]%Z]).
+Proof. vm_compute. reflexivity. Qed.
